@@ -19,7 +19,8 @@ def ThStep (s : St) (e : Ev) (a : Nat) : TS → TS → Prop
     k' = k ∧
     (pc' = pc ∨ (pc = .inv ∧ pc' = .done ∧ e = .addRefCS a) ∨ (pc = .done ∧ pc' = .retd ∧ e = .retAddRef a)) ∧
     (l' = l ∨ (l = false ∧ l' = true ∧ e = .addRefCS a) ∨
-      (l = true ∧ l' = false ∧ ((∃ b, e = .relCS b ∧ s.th[b]? = some (.rel a .cs)) ∨ (e = .selfRelCS a ∧ k = .hook))))
+      (l = true ∧ l' = false ∧ ((∃ b, e = .relCS b ∧ s.th[b]? = some (.rel a .cs)) ∨ (e = .selfRelCS a ∧ k = .hook)))) ∧
+    (pc = .inv → pc' ≠ .inv → l' = true)
   | .rel r _, .rel r' _ => r' = r
   | .ctx c cl pc _, .ctx c' cl' pc' _ =>
     c' = c ∧ cl' = cl ∧
@@ -40,6 +41,7 @@ def ThFrame (s : St) (th' : List TS) (e : Ev) : Prop :=
 
 theorem thStep_refl (s : St) (e : Ev) (a : Nat) (x : TS) : ThStep s e a x x := by
   cases x <;> simp [ThStep]
+  intro h1 h2; exact absurd h1 h2
 
 theorem thStep_tell (s : St) (e : Ev) (a : Nat) (x x' : TS) (t : Option Nat) (h : ThStep s e a x x') :
     ThStep s e a x (tell1 t x') := by
@@ -199,7 +201,7 @@ theorem th_frame (s s' : St) (e : Ev) (hs : step s e = some s') : ThFrame s s'.t
     simp only [step] at hs; split at hs <;> try simp at hs
     rename_i k l f sf t ha
     obtain ⟨_, rfl⟩ := hs
-    exact thFrame_set s _ a _ _ ha ⟨rfl, Or.inr (Or.inr ⟨rfl, rfl, rfl⟩), Or.inl rfl⟩
+    exact thFrame_set s _ a _ _ ha ⟨rfl, Or.inr (Or.inr ⟨rfl, rfl, rfl⟩), Or.inl rfl, by simp⟩
   | retRelease b =>
     simp only [step] at hs; split at hs <;> try simp at hs
     rename_i r hb
@@ -216,14 +218,14 @@ theorem th_frame (s s' : St) (e : Ev) (hs : step s e = some s') : ThFrame s s'.t
     obtain ⟨_, hs⟩ := hs
     split at hs <;> simp at hs <;> subst hs
     · exact thFrame_same s _
-    · exact thFrame_set s _ a _ _ ha ⟨rfl, Or.inl rfl, Or.inl rfl⟩
+    · exact thFrame_set s _ a _ _ ha ⟨rfl, Or.inl rfl, Or.inl rfl, fun h1 h2 => absurd h1 h2⟩
   | relSwap b =>
     simp only [step] at hs; split at hs <;> try simp at hs
     rename_i r hb
     split at hs <;> simp at hs <;> subst hs
     · rename_i k pc l sf t hr
       have hne : r ≠ b := by intro e; subst e; rw [hb] at hr; cases hr
-      have h1 := thFrame_set s (.relSwap b) r _ (.ref k pc l true sf t) hr ⟨rfl, Or.inl rfl, Or.inl rfl⟩
+      have h1 := thFrame_set s (.relSwap b) r _ (.ref k pc l true sf t) hr ⟨rfl, Or.inl rfl, Or.inl rfl, fun h1 h2 => absurd h1 h2⟩
       have hb' : (s.th.set r (.ref k pc l true sf t))[b]? = some (.rel r .inv) := by
         rw [getElem?_set_ne' _ _ _ _ hne]; exact hb
       exact thFrame_set' s _ _ h1 b _ (.rel r .cs) hb'
@@ -241,7 +243,7 @@ theorem th_frame (s s' : St) (e : Ev) (hs : step s e = some s') : ThFrame s s'.t
     rename_i k ha
     obtain ⟨_, hs⟩ := hs
     have h1 : ∀ t, ThFrame s (s.th.set a (.ref k .done true false false t)) (.addRefCS a) := fun t =>
-      thFrame_set s _ a _ _ ha ⟨rfl, Or.inr (Or.inl ⟨rfl, rfl, rfl⟩), Or.inr (Or.inl ⟨rfl, rfl, rfl⟩)⟩
+      thFrame_set s _ a _ _ ha ⟨rfl, Or.inr (Or.inl ⟨rfl, rfl, rfl⟩), Or.inr (Or.inl ⟨rfl, rfl, rfl⟩), fun _ _ => rfl⟩
     split at hs
     · simp at hs; subst hs
       exact thFrame_startResolve s { s with th := s.th.set a (.ref k .done true false false none), owner := .thr a } _ (h1 none)
@@ -257,7 +259,7 @@ theorem th_frame (s s' : St) (e : Ev) (hs : step s e = some s') : ThFrame s s'.t
     obtain ⟨_, rfl⟩ := hs
     have hne : r ≠ b := by intro e; subst e; rw [hb] at hr; cases hr
     have h1 := thFrame_set s (.relCS b) r _ (.ref k pc false f sf t) hr
-      ⟨rfl, Or.inl rfl, Or.inr (Or.inr ⟨rfl, rfl, Or.inl ⟨b, rfl, hb⟩⟩)⟩
+      ⟨rfl, Or.inl rfl, Or.inr (Or.inr ⟨rfl, rfl, Or.inl ⟨b, rfl, hb⟩⟩), fun h1 h2 => absurd h1 h2⟩
     have hb' : (s.th.set r (.ref k pc false f sf t))[b]? = some (.rel r .cs) := by
       rw [getElem?_set_ne' _ _ _ _ hne]; exact hb
     have h2 := thFrame_set' s _ _ h1 b _ (.rel r .done) hb'
@@ -268,7 +270,7 @@ theorem th_frame (s s' : St) (e : Ev) (hs : step s e = some s') : ThFrame s s'.t
     rename_i pc f t ha
     obtain ⟨_, rfl⟩ := hs
     have h1 := thFrame_set s (.selfRelCS a) a _ (.ref .hook pc false f false t) ha
-      ⟨rfl, Or.inl rfl, Or.inr (Or.inr ⟨rfl, rfl, Or.inr ⟨rfl, rfl⟩⟩)⟩
+      ⟨rfl, Or.inl rfl, Or.inr (Or.inr ⟨rfl, rfl, Or.inr ⟨rfl, rfl⟩⟩), fun h1 h2 => absurd h1 h2⟩
     exact thFrame_afterRemove s { s with th := s.th.set a (.ref .hook pc false f false t), owner := .self a } _ h1
 
 
